@@ -100,6 +100,17 @@ def confirm(exe, run_events, scen, pid, sig, workdir, module="TraceCircuit", cfg
     return False
 
 
+def confirm_cases(exe, cases_path, run_id, pid, sig, workdir, module, extra_args=()):
+    """A rejected instance of a TLC-emitted case stream did not repeat alone: re-execute the whole stream it was part of (the
+    failure may depend on the instances executed before it in the same process) and look for the same rejection."""
+    out = os.path.join(workdir, "confirm-cases-%s.ndjson" % hashlib.sha1(cases_path.encode()).hexdigest()[:8])
+    rc, so, se = vlib.run_exe(exe, ["out=" + out, "cases=" + cases_path] + list(extra_args), timeout=6000)
+    if rc != 0:
+        raise vlib.FrameworkError("recorder failed on cases: %s" % (se or "")[-500:])
+    res, reports = _validate(out, module, None)
+    return any(rep["run"] == run_id and f["p"] == pid and (sig is None or f["sig"] == sig) for rep in reports for f in rep["fails"])
+
+
 def attribute(chk, results, pid, exe, scen, flavour, workdir, max_confirm=6, also=(), module="TraceCircuit", exe_name="record",
               keep_events=False):
     """Turn TLC's contract-failure reports for property `pid` into violations / known findings."""
@@ -144,7 +155,14 @@ def attribute(chk, results, pid, exe, scen, flavour, workdir, max_confirm=6, als
                         continue
                     chk.cov["_hangs_confirmed"] = chk.cov.get("_hangs_confirmed", 0) + 1
             elif confirmed < max_confirm:
-                if not confirm(exe, events, scen, f["p"], f["sig"], workdir, module=module):
+                ok = confirm(exe, events, scen, f["p"], f["sig"], workdir, module=module)
+                cases_path = path[:-len(".ndjson")] + ".txt" if path.endswith(".ndjson") else None
+                if not ok and cases_path and os.path.exists(cases_path) and "cases" in os.path.basename(cases_path):
+                    ok = confirm_cases(exe, cases_path, rep["run"], f["p"], f["sig"], workdir, module)
+                    if ok:
+                        replay["kind"] = "cases-stream"
+                        replay["cases"] = [l.rstrip("\n") for l in open(cases_path)]
+                if not ok:
                     # not reproducible when re-recorded alone (it may depend on uninitialised or stale memory): never reported on its
                     # own; other rejected runs are tried, and if none of them repeats either the check ends as a machinery failure
                     unconfirmed.append("run %s: %s" % (rep["run"], text))
@@ -183,7 +201,14 @@ def replay_file(path):
         print("replay %s: TLC accepts the stored events" % path)
         return 0
     exe = vlib.build_exe(rp["flavour"], rp.get("exe", "record"))
-    ok = confirm(exe, [rp["reset"]], rp["scen"], data["property"], None, d, module=rp.get("module", "TraceCircuit"))
+    if rp.get("kind") == "cases-stream":
+        cp = os.path.join(d, "cases00.txt")
+        with open(cp, "w") as f:
+            f.write("\n".join(rp["cases"]) + "\n")
+        run_id = rp["reset"]["run"] if rp.get("reset") else None
+        ok = confirm_cases(exe, cp, run_id, data["property"], None, d, rp.get("module", "TraceAlgo"))
+    else:
+        ok = confirm(exe, [rp["reset"]], rp["scen"], data["property"], None, d, module=rp.get("module", "TraceCircuit"))
     shutil.rmtree(d, ignore_errors=True)
     if ok:
         print("VIOLATION property=%s replay=%s" % (data["property"], path))
